@@ -557,20 +557,26 @@ func (s *TeeingTemporalStore) Add(atom ast.Atom, interval ast.Interval) (bool, e
 		}
 	}
 
-	// Note: We don't check base for existence because semantics of Add
-	// usually imply adding *another* interval.
-	// But if we want deduplication...
-	// If base has exact same fact (same interval), we might want to skip.
-	// TemporalStore.Add returns false if duplicate.
-	// We can check Contains? No, ContainsAt checks point.
-	// Ideally we check if exact fact exists.
-	// For now, let's just write to Out. Duplicate facts are usually harmless or handled by upper layers.
+	// The same atom with the same interval in the base layer is a duplicate, as
+	// it would be in a single TemporalStore.
+	duplicate := false
+	if err := s.base.GetAllFacts(atom, func(tf TemporalFact) error {
+		if tf.Atom.Equals(atom) && tf.Interval.Equals(interval) {
+			duplicate = true
+		}
+		return nil
+	}); err != nil {
+		return false, err
+	}
+	if duplicate {
+		return false, nil
+	}
 	return s.Out.Add(atom, interval)
 }
 
 // AddEternal adds an eternal fact to the output store.
 func (s *TeeingTemporalStore) AddEternal(atom ast.Atom) (bool, error) {
-	return s.Out.AddEternal(atom)
+	return s.Add(atom, ast.EternalInterval())
 }
 
 // Coalesce performs interval coalescing on the output store only.
